@@ -6,11 +6,15 @@ ov = ["harness/json"]
 # index, name, uses vfLen (string length), uses vfLen2
 shapes = [(0, "basic", True, False), (1, "ptrs", False, False), (2, "strtag", True, False), (3, "slices", True, False), (4, "maps", True, False),
           (5, "nested", True, False), (6, "iface", True, False), (7, "numraw", True, True), (8, "marsh", True, False),
-          (9, "fastmaps", True, False), (10, "addrV", False, False), (11, "addrP", False, False)]
+          (9, "fastmaps", True, False), (10, "bytes", True, False), (11, "addrV", False, False), (12, "addrP", False, False)]
 def unit(name, desc, harness, grid, covers, **kw):
     u = {"name": name, "desc": desc, "pkg": "./json", "overlay": ov, "harness": harness, "grid": grid, "covers": covers, "timeout_ms": 30000}
     u.update(kw); return u
 def lens(ulen, q, t): return {"quick": q if ulen else [0], "thorough": t if ulen else [0]}
+def fix_bytes(spec):
+    for u in spec["units"]:
+        if u["name"].endswith("-bytes") and "vfShape" in u["grid"]:
+            u["grid"]["vfLen"] = {"quick": [0, 1, 2, 3, 4, 7], "thorough": "0..10"}
 assume = [
   "type shapes are the catalogue structs of harness/json/shapes.go (tags, omitempty, ,string, pointers, slices/arrays/[]byte, maps with string and integer keys, embedded struct and embedded pointer, interfaces holding scalars/pointers/slices/maps, Number, RawMessage, Marshaler and TextMarshaler on value receivers); values are symbolic inside a shape",
   "the expected encoding/json output of each shape is a hand-written model (want functions) over reference scalars (refInt, refQuote, refBase64, refCompact, refValid); every counterexample is replayed natively against the REAL encoding/json and a disagreement between model and encoding/json is reported as a machinery error, never as a violation",
@@ -32,13 +36,14 @@ c15 = {"property": "C15", "title": "json.Append is oblivious to the destination'
 for i, n, ulen, ulen2 in shapes:
     g = {"vfShape": {"all": [i]}, "vfLen": lens(ulen, [1], [0, 1, 2]), "vfLen2": lens(ulen2, [2], [0, 2, 3]), "vfFlags": {"quick": [3, 0], "thorough": [0, 1, 2, 3, 4, 7]}}
     c15["units"].append(unit("H15-" + n, "Append destination sweep (shape %s)" % n, "vfH_c15_shape", g, ["done"], split={"all": 6}))
+c15["units"].append(unit("H15-top", "destination sweep on top-level values (specialised maps, slices, interfaces, Marshalers), including values whose encoding fails half-way, sorted and unsorted", "vfH_c15_top", {"vfMode": {"all": "0..9"}, "vfFlags": {"quick": [0, 2], "thorough": "0..7"}}, ["done"]))
 c15["units"].append(unit("H15-escape", "AppendEscape destination sweep on every string of the length", "vfH_c15_escape", {"vfLen": {"quick": "0..2", "thorough": "0..3"}, "vfFlags": {"all": [0, 1]}}, ["done"]))
 c14 = {"property": "C14", "title": "json flags change representation or copying, never meaning", "level": "model_checking", "assumptions": assume + ["encode side: all 8 subsets of EscapeHTML|SortMapKeys|TrustRawMessage on every path; TrustRawMessage only for values whose raw messages are valid", "unsorted map output is compared with both member orders (catalogue maps have at most two entries)"],
        "outside_claim": ["types outside the catalogue", "decode-side flags are covered by the units whose names start with H14-dec, if present"], "units": []}
 for i, n, ulen, ulen2 in shapes:
     g = {"vfShape": {"all": [i]}, "vfLen": lens(ulen, [1], [0, 1, 2]), "vfLen2": lens(ulen2, [2], [0, 2, 3])}
     c14["units"].append(unit("H14-enc-" + n, "all AppendFlags subsets (shape %s)" % n, "vfH_c14_enc", g, ["done"], split={"all": 6}))
-rt_shapes = [x for x in shapes if x[0] in (0, 1, 2, 3, 4, 5, 6, 7, 9)]
+rt_shapes = [x for x in shapes if x[0] in (0, 1, 2, 3, 4, 5, 6, 7, 9, 10)]
 for i, n, ulen, ulen2 in rt_shapes:
     g = {"vfShape": {"all": [i]}, "vfRT": {"all": [1]}, "vfLen": lens(ulen, [1], [0, 1, 2]), "vfLen2": lens(ulen2, [2], [0, 2, 3]), "vfFlags": {"quick": [15, 5], "thorough": "0..15"}}
     c14["units"].append(unit("H14-dec-" + n, "Parse(default output, subset of DontCopyString|DontCopyNumber|DontCopyRawMessage|DontMatchCaseInsensitiveStructFields) restores the value (shape %s)" % n, "vfH_c14_dec", g, ["done"], split={"all": 6}))
@@ -55,11 +60,16 @@ for i, n, ulen, ulen2 in shapes:
     c06["units"].append(unit("H06-enc-" + n, "Marshal by value and by pointer: no panic, same bytes (shape %s)" % n, "vfH_c06_enc", g, ["done"], split={"all": 6}))
 c06["units"].append(unit("H06-direct", "pointer-shaped values passed by value ([1]*T, struct{*T}, map, nested)", "vfH_c06_direct", {"vfMode": {"all": "0..6"}}, ["done"]))
 c06["units"].append(unit("H06-cycle", "self-referential values: pointer cycles through struct fields, map values and slice elements must be errors; slice/map/interface self-containment (known finding)", "vfH_c06_cycle", {"vfMode": {"all": "0..5"}}, [], hang_is_violation=True, maxsteps=50000000, maxdepth=40000))
-c06["units"].append(unit("H06-dec", "every byte string of the length into 16 targets (five specialised maps, named map type, structs with embedded pointer / ,string / slices / pointers, slices of structs, interfaces, arrays of slices, pointer to struct, Number+RawMessage)", "vfH_c06_dec",
-                         {"vfMode": {"all": "0..15"}, "vfLen": {"quick": "0..3", "thorough": "0..4"}}, ["rejected"], warm="vfWarm_c06", split={"all": 4}))
+c06["units"].append(unit("H06-dec", "every byte string of the length into 18 targets (five specialised maps, named map type, structs with embedded pointer / ,string / slices / pointers, slices of structs, interfaces, arrays of slices, pointer to struct, Number+RawMessage, time.Duration and a struct of durations)", "vfH_c06_dec",
+                         {"vfMode": {"all": "0..17"}, "vfLen": {"quick": "0..3", "thorough": "0..4"}}, ["rejected"], warm="vfWarm_c06", split={"all": 4}))
 c06["units"].append(unit("H06-trunc", "a valid document per target cut at every offset and with one arbitrary byte at an arbitrary position (Unmarshal; thorough also Parse with ZeroCopy)", "vfH_c06_trunc",
-                         {"vfMode": {"all": "0..15"}, "vfFlags": {"quick": [0], "thorough": [0, 1]}}, ["intact", "truncated", "corrupt"], warm="vfWarm_c06", split={"all": 8}))
+                         {"vfMode": {"all": "0..17"}, "vfFlags": {"quick": [0], "thorough": [0, 1]}}, ["intact", "truncated", "corrupt"], warm="vfWarm_c06", split={"all": 8}))
 c06["outside_claim"] = ["recursion depth proportional to input nesting is unbounded in the code; only depths within the input bounds are explored", "types outside the catalogue and the 16 decode targets", "documents other than free bytes up to the bound and single-byte corruptions / truncations of the 16 template documents", "float exponents in decode inputs (strconv.ParseFloat is an opaque stub)"]
+seq = unit("H06-seq", "a call that fails half-way (encode: invalid RawMessage / failing Marshaler inside sorted or unsorted specialised maps; decode: type error or syntax error inside maps, slices, embedded pointers) leaves nothing behind: the following encodes/decodes of the specialised map types and structs give the fresh-process result", "vfH_c06_seq",
+           {"vfMode": {"all": "0..6"}, "vfFlags": {"quick": [2, 0], "thorough": [0, 1, 2, 3]}}, ["done"])
+c06["units"].append(seq)
+c14["units"].append(dict(seq, name="H14-seq"))
 for fn, spec in (("C01", c01), ("C15", c15), ("C14", c14), ("C06", c06)):
+    fix_bytes(spec)
     json.dump(spec, open(os.path.join(root, "spec", fn + ".json"), "w"), indent=1)
 print("ok")
